@@ -30,3 +30,9 @@ Print Assumptions C05_solve_regenerated.
 Print Assumptions C05_fcn_regenerated.
 Print Assumptions C05_objective_arguments_in_space.
 Print Assumptions C05_nan_candidate_not_in_space.
+
+(* state shared between objects (regenerated scan of the whole package: memoising decorators, mutable class attributes of non-pydantic classes, module-level
+   containers mutated by functions): there is none - no table shared between tasks decides where a candidate is corrected to *)
+Theorem C05_no_shared_mutable_state : gen_no_shared_mutable_state = true.
+Proof. reflexivity. Qed.
+Print Assumptions C05_no_shared_mutable_state.
